@@ -16,7 +16,11 @@ Spaces (all enumerated completely, nothing sampled):
 
 Oracle O1 (no expected values): (1) the output parses, (2) its AST equals the original's under
 ``astcmp`` (positions ignored; operators, names, literal values *and types* compared), (3) prettify is
-idempotent on its output, (4) the multiset of comment texts is preserved, (5) same run() results.
+idempotent on its output, (4) the multiset of comment texts is preserved, (5) same run() results; plus (2b)
+the set of names (identifier tokens) of the text is preserved - the AST constructor itself drops some names
+(`condition X as alias`, constraints of `returns dataset {...}`), so (2) alone cannot see them go.
+When the output does not parse or has another AST, a failing (3) / (2b) on the same fragment is counted as a
+consequence of that finding, not keyed a second time.
 
 A failing script is minimised before it is keyed: statement-level bisection (each statement alone), then
 the smallest sub-expression / single rule that still fails alone; the finding key is derived from that
@@ -49,6 +53,11 @@ def eng():
         from vtlengine.API import create_ast
         from frontend import fe
         _E.update(prettify=vtlengine.prettify, run=vtlengine.run, create_ast=create_ast, fe=fe)
+        # every case parses the same two texts several times (prettify parses twice, the oracle re-parses):
+        # let the stand-in reuse the parser host's reply (parsing is a pure function of the text)
+        fe._State.cache_on = True
+    if len(_E["fe"]._State.cache) > 4000:
+        _E["fe"]._State.cache.clear()
     return _E
 
 
@@ -607,6 +616,14 @@ def w_reserved(item, rec):
         rec.tool_error("reserved-word position %s: no keyword gives a valid script (%r)" % (label, tpl))
     rec.count("scripts_reserved", parsed)
     neutral = examine(tpl.replace("{w}", NEUTRAL), False)
+    if neutral is not None and neutral["devs"]:
+        # the position is already mishandled for an ordinary name: one root cause, keyed generically on the
+        # ordinary-name script; the keyword cases of this position are not keyed a second time
+        per_key = {}
+        report(tpl.replace("{w}", NEUTRAL), neutral, rec, "name position " + label, per_key)
+        flush(per_key, rec)
+        rec.count("keyword_cases_at_a_position_that_fails_for_any_name", sum(len(v) for v in per_dev.values()))
+        return
     for dev, lst in sorted(per_dev.items()):
         rec.count("violating_cases", len(lst))
         fw = sorted(w for w, _ in lst)
@@ -617,11 +634,6 @@ def w_reserved(item, rec):
             df = astcmp.diff(r0["ast"], neutral["ast"])
             if df is not None:
                 where = "%s.%s" % (df.owner, df.field)
-        if neutral is not None and any(d["dev"] == dev for d in neutral["devs"]):
-            # the template fails with an ordinary name too: not a reserved-word matter, key it generically
-            key, what = key_and_what(minimise(tpl.replace("{w}", NEUTRAL), dev), dev)
-            rec.violation(key, what, {"kind": "static", "script": tpl.replace("{w}", NEUTRAL), "dev": dev})
-            continue
         _, what = key_and_what(text0, dev)
         devname = "rendered-unquoted" if dev in ("output-does-not-parse", "ast-changed") and _unquoted(w0, text0, r0["out"]) else dev
         if len(fw) >= 0.9 * parsed:
@@ -715,13 +727,16 @@ def w_run(item, rec):
             rec.count("runs_compared")
             text = script_text(r)
             res = examine(text, False)
-            static = [d["dev"] for d in (res or {}).get("devs", []) if d["dev"] in ("ast-changed",)]
+            static = sorted({d["dev"] for d in (res or {}).get("devs", []) if d["dev"] in ("ast-changed", "names-changed")})
             if static:
-                # same root cause as the structural finding of this script (reported by the static pass)
-                rec.count("run_differences_explained_by_ast_change")
-                for frag in localise(text, res, "ast-changed"):
-                    key, what = key_and_what(frag, "ast-changed")
-                    per_key.setdefault(key, (frag, what + " [and run() on the recorded data of corpus call %s: %s]" % (r["id"], out[1]), "ast-changed"))
+                # same root cause as the structural finding of this script (also reported by the static pass)
+                rec.count("run_differences_explained_by_static_finding")
+                for dev in static:
+                    for frag in localise(text, res, dev):
+                        if consequence(frag, dev):
+                            continue
+                        key, what = key_and_what(frag, dev)
+                        per_key.setdefault(key, (frag, what + " [and run() on the recorded data of corpus call %s: %s]" % (r["id"], out[1]), dev))
             else:
                 rec.violation("C24:run:ast-equal:result-differs",
                               "corpus run %s (%s): %s although the AST of the prettified script is equal" % (r["id"], r["test"], out[1]),
@@ -1008,11 +1023,11 @@ def run_cost(r):
 class Check:
     ID = "C24"
     LEVEL = "exploration"
-    RULE = ("one case = one script through prettify (+ re-parse, AST comparison, second prettify, comment multiset); "
+    RULE = ("one case = one script through prettify (+ re-parse, AST comparison, name set, second prettify, comment multiset); "
             "corpus: every distinct parseable script text of the recorded API calls and tests/**/*.vtl, distinct = "
             "distinct set of (AST node class, operator) signatures; number: 7 mantissas x 10^-12..15 x sign x 3 "
             "statement shapes, distinct = (shape, sign, significant digits, decimals, exponent); null / reserved / "
-            "comments: one case per (position[, keyword]); run: one case per recorded run() call executed on the "
+            "udo-types / comments: one case per (position[, keyword]); run: one case per recorded run() call executed on the "
             "original and on the prettified text, non-trivial = a non-empty result. Scripts that do not parse are "
             "outside the quantifier (trivial).")
     ASSUMPTIONS = [
